@@ -295,11 +295,12 @@ theorem verifyMulti_wf [DecidableEq F] (g g2 τ : F) (a b : Nat) (comms pts : Li
 
 theorem time_batchCommit_new (g g2 τ : F) (D m : Nat) (ps : List (List F))
     (h : ∀ p ∈ ps, p.length ≤ D + 1) :
-    Time.batchCommit (CK.new g g2 τ D m) ps = ps.map (fun p => g * evalPoly p τ) := by
-  unfold Time.batchCommit
-  apply List.map_congr_left
-  intro p hp
-  exact time_commit_new g g2 τ D m p (h p hp)
+    Time.batchCommit (CK.new g g2 τ D m) ps = .ok (ps.map (fun p => g * evalPoly p τ)) := by
+  induction ps with
+  | nil => rfl
+  | cons p ps ih =>
+    simp only [Time.batchCommit, time_commit_new g g2 τ D m p (h p (by simp)),
+      ih (fun q hq => h q (by simp [hq])), List.map_cons]
 
 /-- what `batch_open_multi_points` returns under a key made by `new`: `g·q(τ)` for a quotient `q`
 of the η-combination `B` by the vanishing polynomial, `B = q·Z + r`, `|r| ≤ m` -/
@@ -318,15 +319,18 @@ theorem time_batchOpen_new [DecidableEq F] (g g2 τ : F) (D m : Nat) (ps : List 
     simp only at hπ
     obtain ⟨S, hS, hSl⟩ := vanishing_monic pts
     unfold Time.openMultiPoints at hπ
+    split at hπ
+    · cases hπ
     rw [hS] at hπ
-    obtain ⟨q, r, hd, hql, hrl, hspec⟩ := time_divide_spec B S
+    obtain ⟨q, r, hd, hql, hrl, hspec⟩ := time_divide_spec (pnorm B) S
     rw [hd] at hπ
     simp only at hπ
+    have hnl := pnorm_length_le B
+    rw [time_commit_new _ _ _ _ _ _ (by omega)] at hπ
     injection hπ with hπ
-    refine ⟨q, r, ?_, by omega, ?_⟩
-    · rw [← hπ, time_commit_new _ _ _ _ _ _ (by omega)]
-    · intro x
-      rw [← hBe, hspec x, ← hS, eval_vanishing]
+    refine ⟨q, r, hπ.symm, by omega, ?_⟩
+    intro x
+    rw [← hBe, ← eval_pnorm, hspec x, ← hS, eval_vanishing]
 
 /-- **defect of `verify_multi_points` on an honest batch proof with arbitrary claimed evaluations**:
 accepted iff `g·g2·(I_claimed(τ) − I_true(τ)) = 0`, the η-combinations of the Lagrange interpolants
@@ -336,16 +340,18 @@ theorem verifyMulti_honest_iff [DecidableEq F] (g g2 τ : F) (D m a b : Nat) (ps
     (h : ∀ p ∈ ps, p.length ≤ D + 1) (hnd : pts.Nodup) (ha : pts.length ≤ a)
     (hb : pts.length + 1 ≤ b) (hcl : claimed.length = ps.length)
     (hrows : ∀ e ∈ claimed, e.length = pts.length)
-    (hπ : Time.batchOpenMultiPoints (CK.new g g2 τ D m) ps pts η = .ok π) :
-    verifyMultiPoints ⟨PCV.powers g τ a, PCV.powers g2 τ b⟩
-        (Time.batchCommit (CK.new g g2 τ D m) ps) pts claimed π η = .ok true
+    (hπ : Time.batchOpenMultiPoints (CK.new g g2 τ D m) ps pts η = .ok π)
+    (cs : List F) (hcs : Time.batchCommit (CK.new g g2 τ D m) ps = .ok cs) :
+    verifyMultiPoints ⟨PCV.powers g τ a, PCV.powers g2 τ b⟩ cs pts claimed π η = .ok true
       ↔ g * g2 * (interpAt pts claimed η τ
           - interpAt pts (ps.map (fun p => pts.map (evalPoly p))) η τ) = 0 := by
   have hcne : claimed ≠ [] := by
     intro hc; rw [hc] at hcl; exact hps (List.length_eq_zero_iff.1 hcl.symm)
+  rw [time_batchCommit_new _ _ _ _ _ _ h] at hcs
+  injection hcs with hcs
+  subst hcs
   rw [verifyMulti_wf g g2 τ a b _ pts claimed π η hnd ha hb hcne
-      (by unfold Time.batchCommit; simp [hcl]) hrows, time_batchCommit_new _ _ _ _ _ _ h,
-    dot_map_mul_left, hcl]
+      (by simp [hcl]) hrows, dot_map_mul_left, hcl]
   obtain ⟨q, r, hq, hrl, hspec⟩ := time_batchOpen_new g g2 τ D m ps pts η π hps h hπ
   -- the remainder and the η-combination of the true interpolants agree on the points, hence at τ
   obtain ⟨I, hI, hIl, hIe⟩ := linearCombination_spec
@@ -406,24 +412,25 @@ theorem verifyMulti_new_iff [DecidableEq F] (g g2 τ : F) (D m : Nat) (ps : List
     (hcl : claimed.length = ps.length) (hrows : ∀ e ∈ claimed, e.length = pts.length)
     (hπ : Time.batchOpenMultiPoints (CK.new g g2 τ D m) ps pts η = .ok π) (vk : VK F)
     (hvk : VK.ofTime (CK.new g g2 τ D m) = .ok vk
-      ∨ VK.ofSpace (CKS.ofTime (CK.new g g2 τ D m)) = .ok vk) :
-    verifyMultiPoints vk (Time.batchCommit (CK.new g g2 τ D m) ps) pts claimed π η = .ok true
+      ∨ VK.ofSpace (CKS.ofTime (CK.new g g2 τ D m)) = .ok vk)
+    (cs : List F) (hcs : Time.batchCommit (CK.new g g2 τ D m) ps = .ok cs) :
+    verifyMultiPoints vk cs pts claimed π η = .ok true
       ↔ g * g2 * (interpAt pts claimed η τ
           - interpAt pts (ps.map (fun p => pts.map (evalPoly p))) η τ) = 0 := by
   obtain ⟨a, ha, rfl⟩ := vk_new_shape g g2 τ D m hD vk hvk
   exact verifyMulti_honest_iff g g2 τ D m a (m + 1) ps pts claimed η π hps h hnd (by omega)
-    (by omega) hcl hrows hπ
+    (by omega) hcl hrows hπ cs hcs
 
 theorem verifyMulti_new_complete [DecidableEq F] (g g2 τ : F) (D m : Nat) (ps : List (List F))
     (pts : List F) (η π : F) (hps : ps ≠ [])
     (h : ∀ p ∈ ps, p.length ≤ D + 1) (hnd : pts.Nodup) (hm : pts.length ≤ m) (hD : m ≤ D)
     (hπ : Time.batchOpenMultiPoints (CK.new g g2 τ D m) ps pts η = .ok π) (vk : VK F)
     (hvk : VK.ofTime (CK.new g g2 τ D m) = .ok vk
-      ∨ VK.ofSpace (CKS.ofTime (CK.new g g2 τ D m)) = .ok vk) :
-    verifyMultiPoints vk (Time.batchCommit (CK.new g g2 τ D m) ps) pts
-      (ps.map (fun p => pts.map (evalPoly p))) π η = .ok true := by
+      ∨ VK.ofSpace (CKS.ofTime (CK.new g g2 τ D m)) = .ok vk)
+    (cs : List F) (hcs : Time.batchCommit (CK.new g g2 τ D m) ps = .ok cs) :
+    verifyMultiPoints vk cs pts (ps.map (fun p => pts.map (evalPoly p))) π η = .ok true := by
   rw [verifyMulti_new_iff g g2 τ D m ps pts _ η π hps h hnd hm hD (by simp)
-    (by intro e he; obtain ⟨p, _, rfl⟩ := List.mem_map.1 he; simp) hπ vk hvk]
+    (by intro e he; obtain ⟨p, _, rfl⟩ := List.mem_map.1 he; simp) hπ vk hvk cs hcs]
   ring
 
 /-! ### a changed evaluation is rejected -/
@@ -562,14 +569,16 @@ theorem verifyMulti_new_reject [DecidableEq F] (g g2 τ : F) (D m : Nat) (ps : L
     (hvk : VK.ofTime (CK.new g g2 τ D m) = .ok vk
       ∨ VK.ofSpace (CKS.ofTime (CK.new g g2 τ D m)) = .ok vk)
     (ha : a < ps.length) (hb : b < pts.length) (hg : g ≠ 0) (hg2 : g2 ≠ 0) (hη : η ≠ 0)
-    (hδ : δ ≠ 0) (hτ : τ ∉ pts) :
-    verifyMultiPoints vk (Time.batchCommit (CK.new g g2 τ D m) ps) pts
+    (hδ : δ ≠ 0) (hτ : τ ∉ pts)
+    (cs : List F) (hcs : Time.batchCommit (CK.new g g2 τ D m) ps = .ok cs) :
+    verifyMultiPoints vk cs pts
       (bumpAt (ps.map (fun p => pts.map (evalPoly p))) a b δ) π η = .ok false := by
   have hiff := verifyMulti_new_iff g g2 τ D m ps pts
     (bumpAt (ps.map (fun p => pts.map (evalPoly p))) a b δ) η π hps h hnd hm hD
     (by rw [bumpAt_length]; simp)
     (bumpAt_rows _ a b δ pts.length
-      (by intro e he; obtain ⟨p, _, rfl⟩ := List.mem_map.1 he; simp)) hπ vk hvk
+      (by intro e he; obtain ⟨p, _, rfl⟩ := List.mem_map.1 he; simp)) hπ vk hvk cs hcs
+  have hcsl := time_batchCommit_length _ _ _ hcs
   obtain ⟨k, hk, rfl⟩ := vk_new_shape g g2 τ D m hD vk hvk
   have hne : (bumpAt (ps.map (fun p => pts.map (evalPoly p))) a b δ) ≠ [] := by
     intro hc
@@ -578,7 +587,7 @@ theorem verifyMulti_new_reject [DecidableEq F] (g g2 τ : F) (D m : Nat) (ps : L
     simp at this
     exact hps (List.length_eq_zero_iff.1 this.symm)
   rw [verifyMulti_wf g g2 τ k (m + 1) _ pts _ π η hnd (by omega) (by omega) hne
-    (by unfold Time.batchCommit; rw [bumpAt_length]; simp)
+    (by rw [bumpAt_length, hcsl]; simp)
     (bumpAt_rows _ a b δ pts.length
       (by intro e he; obtain ⟨p, _, rfl⟩ := List.mem_map.1 he; simp))] at hiff ⊢
   simp only [Except.ok.injEq, decide_eq_true_eq] at hiff
